@@ -3,6 +3,7 @@ package rules
 import (
 	"fmt"
 	"go/token"
+	"go/types"
 	"sort"
 	"strings"
 
@@ -40,6 +41,10 @@ func checkC07(p *core.Program, r *core.Report) {
 	r.Rule("R4", "no arbitrary choice: an empty exit fails the run; without a router the first exit is taken under len > 0; the random router's index derives only from random.Decimal, len(categories), Mul, IntPart")
 	r.Rule("R5", "Results.Save stores the result it is given on every path (the saved input/node/extra are those of the latest routing)")
 	r.Rule("R9", "translated case arguments replace the base arguments only when they are as many: in matchCase the result of the `arguments` lookup is compared by length with the case's own Arguments before it is evaluated (a translation with a different number of items otherwise makes the test fail on its argument count and the first matching case is skipped)")
+	r.Rule("R10", "a candidate that fails does not end the search: where a router test tries several candidates found in the input (a loop that calls the comparison it was given), the failing outcome of the comparison goes on to the next candidate — it never leaves the loop (a `break` there makes the test miss inputs whose second number matches, so a later case or Other wins)")
+	c07R10(p, r)
+	r.Rule("R11", "the search without a parent is the fallback for a parent that was not named: in a location test, a FindLocationsFuzzy call with a nil parent at a level below the top is made only when the text that names the level directly above — the text of the lookup at that level in the same test — is empty")
+	c07R11(p, r)
 	r.Rule("R8", "calendar days are taken in one timezone: within a router test, the values handed to dates.ExtractDate agree on being converted with In(env.Timezone()) first (sibling agreement between the operand's date and the argument's date; a day compared across two zones makes an earlier case miss and a later one win)")
 	r.Rule("R7", "timeout routing is chosen for the run the timeout was applied to: the condition under which the engine calls Router.RouteTimeout instead of Route traces back, through parameters and every call site, only to a type test of the resume handed to the resuming function (a parameter) or to the constant false — never to session state such as the sprint's current resume, which is still a timeout when a parent run is resumed later in the same sprint")
 	r.Assumption("each test function matches what its documentation says; localisation of arguments is C18")
@@ -790,4 +795,136 @@ func c07R9(p *core.Program, r *core.Report, mc *ssa.Function) {
 			"the translated arguments of a case are used whatever their number: a translation with more or fewer items than the case has arguments changes what the test is called with, so the case the definition prescribes no longer wins")
 	}
 	r.Require("argument_lookups", n, 1)
+}
+
+// ---------------------------------------------------------------------------------------------- R10
+
+// c07R10: package cases. For every call of a function-typed parameter inside a loop whose boolean result decides a
+// branch: the edge taken when the result is false stays in the loop until its header.
+func c07R10(p *core.Program, r *core.Report) {
+	n := 0
+	for _, fn := range p.ModuleFunctions() {
+		if core.RelPkg(core.FuncPkgPath(fn)) != "flows/routers/cases" {
+			continue
+		}
+		for _, cs := range core.Calls(fn, false) {
+			par, ok := cs.Common().Value.(*ssa.Parameter)
+			if !ok || cs.Common().IsInvoke() {
+				continue
+			}
+			if _, isSig := par.Type().Underlying().(*types.Signature); !isSig {
+				continue
+			}
+			call, ok := cs.Instr.(*ssa.Call)
+			if !ok {
+				continue
+			}
+			header := lexicalLoopHeader(call.Block())
+			if header == nil {
+				continue
+			}
+			for _, ref := range *call.Referrers() {
+				var iff *ssa.If
+				neg := false
+				switch x := ref.(type) {
+				case *ssa.If:
+					iff = x
+				case *ssa.UnOp:
+					if x.Op == token.NOT {
+						for _, r2 := range *x.Referrers() {
+							if i2, ok := r2.(*ssa.If); ok {
+								iff, neg = i2, true
+							}
+						}
+					}
+				}
+				if iff == nil {
+					continue
+				}
+				n++
+				failSucc := iff.Block().Succs[1]
+				if neg {
+					failSucc = iff.Block().Succs[0]
+				}
+				r.Check(!edgeLeavesLoop(failSucc, header), "R10", core.FuncName(fn)+"/"+par.Name()+"/failed-candidate-continues", p.Pos(call.Pos()), "the false outcome of "+par.Name()+" returns to the loop header", "when "+par.Name()+" rejects a candidate the loop over the candidates is left: later candidates in the same input are never tried")
+			}
+		}
+	}
+	r.Count("candidate_loops", n)
+	r.Require("candidate_loops", n, 1)
+}
+
+// ---------------------------------------------------------------------------------------------- R11
+
+func c07R11(p *core.Program, r *core.Report) {
+	type lookup struct {
+		cs     core.CallSite
+		text   ssa.Value // the XText whose Native() is searched
+		level  int64
+		parent ssa.Value
+	}
+	textOf := func(v ssa.Value) ssa.Value {
+		if c, ok := v.(*ssa.Call); ok {
+			if o := core.CalleeObj(&c.Call); o != nil && o.Name() == "Native" && len(c.Call.Args) == 1 {
+				return c.Call.Args[0]
+			}
+		}
+		return nil
+	}
+	n := 0
+	for _, fn := range p.ModuleFunctions() {
+		if core.RelPkg(core.FuncPkgPath(fn)) != "flows/routers/cases" {
+			continue
+		}
+		var ls []lookup
+		for _, cs := range core.Calls(fn, false) {
+			o := core.CalleeObj(cs.Common())
+			if o == nil || o.Name() != "FindLocationsFuzzy" {
+				continue
+			}
+			a := cs.Common().Args
+			if len(a) < 4 {
+				continue
+			}
+			lvl, ok := core.ConstInt(a[len(a)-2])
+			if !ok {
+				continue
+			}
+			ls = append(ls, lookup{cs, textOf(a[len(a)-3]), lvl, a[len(a)-1]})
+		}
+		for _, l := range ls {
+			if !core.IsNilConst(l.parent) {
+				continue
+			}
+			var above []ssa.Value
+			for _, m := range ls {
+				if m.level == l.level-1 && m.text != nil {
+					above = append(above, m.text)
+				}
+			}
+			if len(above) == 0 {
+				continue
+			}
+			n++
+			okGuard, tested := false, ""
+			for _, ce := range core.ControllingConds(l.cs.Instr.Block()) {
+				c, ok := ce.Cond.(*ssa.Call)
+				if !ok || !ce.Taken {
+					continue
+				}
+				if o := core.CalleeObj(&c.Call); o == nil || o.Name() != "Empty" || len(c.Call.Args) != 1 {
+					continue
+				}
+				tested = canon(c.Call.Args[0])
+				for _, t := range above {
+					if t == c.Call.Args[0] {
+						okGuard = true
+					}
+				}
+			}
+			r.Check(okGuard, "R11", fmt.Sprintf("%s/parentless-lookup-level-%d", fn.Name(), l.level), p.Pos(l.cs.Pos()), "made only when the text naming the level above is empty", "the search without a parent at level "+fmt.Sprint(l.level)+" is not decided by the emptiness of the text that names the level above (tested: "+tested+"): the fallback is skipped for inputs that do not name the parent, or taken although the named parent did not match")
+		}
+	}
+	r.Count("parentless_fallback_lookups", n)
+	r.Require("parentless_fallback_lookups", n, 2)
 }
